@@ -41,8 +41,10 @@ Theorem C12_left_is_reversed_right : forall (g : list R * list R),
 Proof. intros [a b]; reflexivity. Qed.
 Print Assumptions C12_left_is_reversed_right.
 
-(* the N control points are all allocated: after the root-section correction the section counts sum to N *)
-Theorem C12_counts : forall (Ncp : Z) (rounded : list Z), rounded <> [] -> fold_left Z.add (alloc Ncp rounded) 0%Z = Ncp.
+(* the N control points are all allocated: after the correction (taken from the root section, or from the longest sections when the
+   root section is too short) the section counts - rounded lengths, hence non-negative - sum to N *)
+Theorem C12_counts : forall (Ncp : Z) (rounded : list Z), rounded <> [] -> Forall (fun r => 0 <= r)%Z rounded ->
+  fold_left Z.add (alloc Ncp rounded) 0%Z = Ncp.
 Proof. intros; apply alloc_sum; assumption. Qed.
 Print Assumptions C12_counts.
 
